@@ -43,7 +43,7 @@ class S(vlib.Spec):
     ]
     assumptions = [
         "objects are fresh NewX() objects unless the case says otherwise (Read twice into one object is a separate case kind: nothing is reset)",
-        "C09_keep_roundtrip / C09_chain assume the old code's Write succeeded; C09_keep_write_iff shows this happens exactly when the object it holds is writable (every union has exactly one declared member set, no set has two DeepEqual elements), and C09_keep_roundtrip_total / C09_chain_total state the round trip under the decidable hypothesis keep_accepts o n so sn v alone; the case keep_accepts = false with a union is the known finding (C09_keep_roundtrip_refuted)",
+        "C09_keep_roundtrip / C09_chain assume the old code's Write succeeded; C09_keep_write_iff shows this happens exactly when the object it holds is writable (and C09_keep_rewrite_errors that a refusal is always the set check or the union count) (every union has exactly one declared member set, no set has two DeepEqual elements), and C09_keep_roundtrip_total / C09_chain_total state the round trip under the decidable hypothesis keep_accepts o n so sn v alone; the case keep_accepts = false with a union is the known finding (C09_keep_roundtrip_refuted)",
         "domain of the keep theorems: opt_defaults_ok o n (an optional field of the old program whose fresh NewX() content already counts as set must read back, under the new schema, as its declared default; decidable) and keepable n t v (no nil struct pointer in a non-optional position, no map keys colliding when written); outside it the correspondence still compares every hop",
     ]
 
